@@ -129,6 +129,40 @@ def x_evm_watcher():
     if not re.search(r'blockNumberU := ev\.Number\.Uint64\(\)', src):
         raise Broken("scan: blockNumberU := ev.Number.Uint64() not found")
 
+    # ---------------------------------------------------------------- the log handler: key, height, message fields
+    lh = re.search(r'case ev := <-messageC:', src)
+    if not lh:
+        raise Broken("log handler `case ev := <-messageC:` not found")
+    lhb = src[lh.end():src.find("// Watch headers", lh.end())]
+    for pat, what in [
+        (r'blockTime, err := w\.ethConn\.TimeOfBlockByHash\(timeout, ev\.Raw\.BlockHash\)', "block time of ev.Raw.BlockHash"),
+        (r'key := pendingKey\{\s*TxHash:\s*message\.TxHash,\s*BlockHash:\s*ev\.Raw\.BlockHash,\s*EmitterAddress:\s*message\.EmitterAddress,\s*Sequence:\s*message\.Sequence,\s*\}', "pendingKey{TxHash, BlockHash, EmitterAddress, Sequence}"),
+        (r'w\.pending\[key\] = &pendingMessage\{\s*message:\s*message,\s*height:\s*ev\.Raw\.BlockNumber,\s*\}', "pendingMessage{message, height: ev.Raw.BlockNumber}"),
+        (r'TxHash:\s*ev\.Raw\.TxHash,\s*Timestamp:\s*time\.Unix\(int64\(blockTime\), 0\),\s*Nonce:\s*ev\.Nonce,\s*Sequence:\s*ev\.Sequence,\s*EmitterChain:\s*w\.chainID,\s*TargetChain:\s*vaa\.ChainID\(ev\.TargetChainId\),\s*EmitterAddress:\s*PadAddress\(ev\.Sender\),\s*Payload:\s*ev\.Payload,\s*ConsistencyLevel:\s*ev\.ConsistencyLevel,', "MessagePublication fields"),
+        (r'w\.pendingMu\.Lock\(\)\s*\n\s*w\.pending\[key\]', "insertion under pendingMu"),
+    ]:
+        if not re.search(pat, lhb):
+            raise Broken("log handler: %s not found" % what)
+
+    # ---------------------------------------------------------------- nothing else touches msgChan / w.pending
+    import glob as _glob, os as _os
+    from extract import REPO as _REPO
+    sends = writes = deletes = 0
+    for f in sorted(_glob.glob(_os.path.join(_REPO, "node/pkg/ethereum/*.go"))):
+        if f.endswith("_test.go"):
+            continue
+        t = open(f).read()
+        sends += len(re.findall(r'\bmsgChan\s*<-', t))
+        writes += len(re.findall(r'\.pending\[[^\]]+\]\s*=[^=]', t))
+        deletes += len(re.findall(r'delete\(\s*w\.pending\b', t))
+    if sends != 2:
+        raise Broken("pkg/ethereum: %d sends on msgChan (expected 2: scan, re-observation)" % sends)
+    if writes != 1:
+        raise Broken("pkg/ethereum: %d assignments into w.pending (expected 1: the log handler)" % writes)
+    if deletes != 5:
+        raise Broken("pkg/ethereum: %d delete(w.pending, ..) (expected 5: timeout, orphan, failed, re-mined, forward)" % deletes)
+    info["msgChan_sends"] = sends
+
     # ---------------------------------------------------------------- where the heads come from
     if not re.search(r'useFinalizedBlocks := \(w\.chainID == vaa\.ChainIDEthereum && \(!w\.unsafeDevMode\)\)', src):
         raise Broken("Run: `useFinalizedBlocks := (w.chainID == vaa.ChainIDEthereum && (!w.unsafeDevMode))` not found")
